@@ -5,21 +5,29 @@ from vlib import songgen
 
 ID = "C12"
 LEAN_MODULE = "Ctrmml.Properties.C12"
-THEOREMS = ["C12_seek_eq_play", "C12_same_future", "C12_skip_stopped"]
+THEOREMS = ["C12_seek_eq_play", "C12_same_future", "C12_skip_stopped", "alive_antitone", "C12_seek_eq_play_of_alive_last",
+            "C12_same_future_of_alive_last", "C12_seek_eq_play_noerr", "C12_obs_enabled", "C12_past_end_playTime_differs",
+            "C12_example_alive", "C12_example_lands_inside"]
 LEVEL = "proof"
 STREAM = "seek.obs"
 CHUNK = 60
 TECHNIQUE = "Lean 4 proof (skip_ticks loop = iterated play_tick from any settled state; induction on the tick count) + differential correspondence model<->Player in player.cpp"
-LEVEL_TEXT = ("Machine-checked theorem over the Lean model of Player::skip_ticks/play_tick/handle_event (incl. drum mode, channel variables, mode bits): for every song, track and "
-              "seek distance n>=1 within the live part of the track, skip_ticks(n) on a fresh player yields exactly the state of n+1 play_tick() calls, hence the same future events; "
-              "tied to player.cpp by comparing full private-state dumps and 24-tick futures of both real paths with the model for generated tracks and every n.")
+LEVEL_TEXT = ("Machine-checked theorems over the Lean model of Player::skip_ticks/play_tick/handle_event (incl. drum mode, channel variables, mode bits): for every song, track and "
+              "seek distance n>=1 such that the track is alive (enabled, no error) after n single ticks -- ONE hypothesis at the last earlier tick, since `alive` is proved downward closed "
+              "along play ticks -- skip_ticks(n) on a fresh player yields exactly the state of n+1 play_tick() calls, hence the same future events (C12_seek_eq_play_of_alive_last, "
+              "C12_same_future_of_alive_last). Without the enabled half: if no error has occurred after n ticks, both paths agree on obs = the whole state while the track is enabled and, "
+              "once it has ended, everything except play_time/on_time/off_time (C12_seek_eq_play_noerr); past the end play_time really differs (C12_past_end_playTime_differs, proved "
+              "witness; outside the property, n is limited to the track length). The hypothesis is proved by kernel evaluation for a concrete track with a loop, a break, a call and "
+              "relative commands and a seek landing inside a note (C12_example_alive, C12_example_lands_inside). Tied to player.cpp by comparing full private-state dumps and 24-tick "
+              "futures of both real paths with the model for generated tracks and every n (incl. n past the end).")
 LEVEL_NOTE = ("Trusted: Lean kernel (propext, Classical.choice, Quot.sound), Model/PlayerCh.lean + Model/Player.lean (agreement with player.cpp by differential testing), the step budget "
-              "of the inner fetch loop (exhaustion would surface as an error state and is excluded by the `alive` hypothesis; never observed). `event`, note_count and rest_count are "
-              "outputs, not state. Seeks beyond the end of a finished track are outside the property (n up to the track length).")
+              "of the inner fetch loop (exhaustion would surface as an error state and is excluded by the no-error hypothesis; never observed). `event`, note_count and rest_count are "
+              "outputs, not state. Seeks beyond the end of a finished track are outside the property (n up to the track length): there the two real paths differ in play_time exactly as "
+              "the model does (skip_ticks adds the remaining distance, play_tick does not count on a stopped player); the spec oracle skips those n, the correspondence compares them.")
 RULE = ("valid tracks from the song grammar (loops with breaks, calls, drum-mode routines, loop point, absolute and relative channel commands, tempo/volume mode switches, platform "
         "commands) x every seek distance n in 1..min(length,40) plus boundary distances; non-trivial = contains loop/call/drum/segno; distinct by request text")
 EXPLANATION = "theorem over the model for all songs and n; correspondence on private-state dumps of both real paths; spec oracle = equality of the two real dumps and futures"
-ASSUMPTIONS = ["track alive (enabled, no error) at every earlier tick", "inner fetch loops end within the step budget"]
+ASSUMPTIONS = ["track alive (enabled, no error) after n single ticks (one hypothesis; for the obs-level theorem only: no error after n ticks)", "inner fetch loops end within the step budget"]
 
 CORPUS = [
     "seek 0 1,2,3,4,5,6,7,8 T0:2.36.2.1,2.38.3.0,1.0.0.2",
@@ -35,6 +43,10 @@ CORPUS = [
     # seek distances around and beyond 16 bits (a long loop of long notes with a running volume change)
     "seek 0 65534,65535,65536,65537,66000,70000,99999,131071,131072,131073 T0:16.3.0.0,4.0.0.0,2.40.900.100,18.1.0.0,1.0.0.500,6.100.0.0,2.41.10.0",
     "seek 0 65535,65536,65537,80000 T0:4.0.0.0,2.40.65535.0,18.1.0.0,2.41.1.0,6.3.0.0",
+    # round 2: the track of C12_example_alive (loop with break, call, relative commands; n = 8 lands inside the note of
+    # track 100) and the one-tick track of C12_past_end_playTime_differs (n = 2,3,4 are past the end: play_time differs)
+    "seek 0 1,2,3,4,5,6,7,8,9,10,11,12,13,14,15,16 T0:4.0.0.0,2.1.2.1,5.0.0.0,12.2.0.0,2.2.1.0,6.2.0.0,8.100.0.0,2.5.3.1 T100:2.9.2.1,14.1.0.0",
+    "seek 0 1,2,3,4 T0:2.1.1.0",
 ]
 
 
